@@ -43,7 +43,7 @@ def run_checks(sid, props, tier='quick', extra='', in_copy=False):
     repo = '/repo'
     if in_copy:
         repo = '/tmp/xsg-seeded-%s' % sid
-        sh('git -C /repo worktree remove --force %s; git -C /repo worktree add -q --detach %s HEAD' % (repo, repo))
+        sh('git -C /repo worktree remove --force %s; git -C /repo worktree add -q --detach %s HEAD; cp /repo/Cargo.lock %s/' % (repo, repo, repo))
     else:
         rc, out = sh('git -C /repo status --porcelain')
         if out.strip(): raise RuntimeError('/repo is not clean: ' + out)
